@@ -205,3 +205,32 @@ def ignored_results(fn, families):
                 if not used:
                     out.append((bid, i, e))
     return out
+
+
+def stale_status(prog, fn, var=None):
+    """R3(b).  Definitions `res = f(...)` where f does not return a KSI status (it is neither defined
+    in the library nor a KSI_* function: poll, recv, fseek, X509_verify_cert, ...) that reach a
+    `return res`.  [(def block, def idx, callee, return line)]"""
+    from .flow import return_blocks
+    var = var or status_var(fn)
+    if var is None:
+        return []
+    out = []
+    for (rb, ri) in return_blocks(fn):
+        for d in fn.defs_at(rb, ri, var):
+            if d[0] == "param":
+                continue
+            v, kind, node = fn.def_info(d)
+            if kind not in ("asg", "init"):
+                continue
+            rhs = node.get("r") if kind == "asg" else node.get("init")
+            c = fn.as_call(rhs) if rhs is not None else None
+            if c is None:
+                continue
+            name = c.get("fn")
+            if not name or c.get("macro"):
+                continue
+            if prog.functions.get(name) or name.startswith("KSI_"):
+                continue
+            out.append((d[0], d[1], name, fn.elem_line(rb, ri)))
+    return out
